@@ -64,6 +64,9 @@ impl UrlPath {
 
             if _char == ']' && previous_char.is_some() && previous_char.unwrap() == ']' {
                 is_opened_token = false;
+                if _buffer.len() < 2 {
+                    return Err("closing brackets without a token".to_string())
+                }
                 let without_square_brackets = _buffer.len() - 2;
                 let key : String = _buffer[0..without_square_brackets].into_iter().collect();
                 let part = Part {
